@@ -15,7 +15,13 @@ if rc != 0:
 integrated = set(open("tools/integrated.txt").read().split())
 props = sorted(p for p in (os.path.basename(os.path.dirname(p)) for p in glob.glob("props/C*/check.py")) if p in integrated)
 def one(p):
+    gen_fail = None
+    if os.path.exists(os.path.join("props", p, "gen.json")):
+        # props/<p>/coq/Gen.v is committed but always regenerated from the Go sources (harness/cmd/go2coq)
+        gen_fail = vcheck.regen_gen(p)
     rc, out = vcheck.build_coq(p)
+    if gen_fail:
+        rc, out = 1, gen_fail + "\n" + out
     e, hout = vcheck.build_harness(p)
     return p, rc, out, e, hout
 bad = 0
